@@ -25,22 +25,25 @@ def fill(P):
       "contract-based deductive verification (GeneralRating constructor/validator raises-iff tables, subclass delegation, score_profile_from_ballot_scores totals loop, GeneralRating._run_step, elect_cands_from_set_ranking) + bounded run-time contract checks",
       "Validator loop proved with a forall-ballots invariant (every ballot, exact boundaries); score_profile_from_ballot_scores proved: every candidate's total = sum of weight x score, TypeError iff a ballot has no score card; "
       "the single round (top m of the previous ranking, tie recorded with a strict order, ValueError iff unbreakable) proved against the proved kernel; whole elections on small score profiles are a bounded check.",
-      "Election._run_election and PreferenceProfile(...) are assumed contracts (listed in trusted_base).", "DESIGN.md 4-C05, 8.2")
+      "PreferenceProfile(...) is an assumed contract; GeneralRating's whole run (Election._run_election: terminates, two states, exactly m elected) is proved separately (8.3), inside the constructor proofs it is still the assumed abstract contract.", "DESIGN.md 4-C05, 8.2, 8.3")
 
     P("C01", "other",
-      "contract-based deductive verification of the seat-filling kernel (elect_cands_from_set_ranking: exactly m, ValueError iff unbroken straddling tie; constructor tables) + bounded run-time audit of every rule",
-      "The shared top-m kernel and the constructors' exception tables are proved for all inputs; termination / exactly-m / partition-per-round of "
-      "whole counts of all 18 rules is a bounded small-scope exhaustive audit of the real code (labelled bounded).",
-      "Election._run_election is an assumed abstract contract inside constructor proofs; whole-run properties are bounded only.", "DESIGN.md 4-C01")
+      "contract-based deductive verification of the seat-filling kernel (elect_cands_from_set_ranking), the rounds (_run_step of Plurality/Borda/GeneralRating/STV/RandomDictator/DominatingSets/CondoBorda) and the WHOLE RUN (Election._run_election with the receiver's _is_finished/_run_step: loop invariant + variant) of Plurality/SNTV, Borda, GeneralRating and DominatingSets + bounded run-time audit of every rule",
+      "For Plurality/SNTV, Borda, GeneralRating and DominatingSets the run is proved for all profiles: the while loop terminates (variant), exactly two states, the last one electing exactly m candidates (the top tier for DominatingSets), ValueError exactly on an out-of-range m or an unbreakable tie at the last seat; "
+      "the shared top-m kernel, the rounds of STV/RandomDictator/CondoBorda and the constructors' exception tables are proved for all inputs; termination / exactly-m / partition-per-round of "
+      "the multi-round rules (STV family, TopTwo, Alaska, RandomDictator family, PluralityVeto) is a bounded small-scope exhaustive audit of the real code (labelled bounded).",
+      "Inside the constructor proofs Election._run_election is still the assumed abstract contract; score_dict_to_ranking, the score functions (A-PUREFN) and the pairwise-comparison-graph object are assumed callee contracts of the run proofs.", "DESIGN.md 4-C01, 8.3")
     P("C03", "other",
       "contract-based deductive verification of fractional_transfer (per-ranking weight equation for all inputs), remove_cand, condense_ballots and the STV threshold arithmetic + bounded per-content audit of both transfer functions over every draw",
       "fractional_transfer: for every ranking k the transferred weight on k equals the definition (w*(tally-T)/tally on winner-led ballots, w elsewhere); Droop bound proved; random_transfer (every draw enumerated through a scripted random.sample) and "
       "round-to-round conservation are audited on small-scope exhaustive inputs (bounded).",
       "", "DESIGN.md 4-C03")
     P("C06", "other",
-      "contract-based deductive verification of head2head_count (nested loop with early exit) + bounded run-time contract check (margins by definition, tiers by brute-force minimal dominating sets)",
-      "head2head_count is proved for all profiles: the total weight of the ballots whose first position listing either candidate lists cand1; compute_pairwise_dict (tuple-keyed dict, max over zip), ballot_fill "
-      "(itertools.permutations) and dominating_tiers (networkx) are outside the verifier's subset: bounded exhaustive/sampled audit only.", "networkx reachability trusted.", "DESIGN.md 4-C06, 8.2")
+      "contract-based deductive verification of head2head_count, DominatingSets._run_step / whole run and CondoBorda._run_step against assumed contracts of the graph object + Lean 4/Mathlib lemma L06 (reach-size tiers are the dominating tiers) + bounded run-time contract check (margins by definition, tiers by brute-force minimal dominating sets)",
+      "head2head_count is proved for all profiles (total weight of the ballots whose first position listing either candidate lists cand1); DominatingSets is proved to elect exactly the first tier that dominating_tiers() returns and to keep the other tiers in order (round and whole run, loop termination), "
+      "CondoBorda to take whole tiers in order and to resolve a straddling tier by a recorded strict order of exactly that tier; Lean lemma L06 proves that tiers by reach-set size in a total beats-or-ties digraph are dominating, unsplittable, top = Smith set. "
+      "compute_pairwise_dict (tuple-keyed dict, max over zip), ballot_fill (itertools.permutations) and dominating_tiers itself (networkx, dict of sets) are outside the verifier's subset: assumed contracts in the proofs, bounded exhaustive/sampled audit only.",
+      "networkx reachability trusted; PairwiseComparisonGraph(...) and dominating_tiers() are assumed contracts (opaque filled / tiers_of).", "DESIGN.md 4-C06, 8.2, 8.3")
     P("C11", "other",
       "contract-based deductive verification of Ballot.__eq__ and PreferenceProfile.condense_ballots (dict keyed by Ballot modelled as ordered key/value sequences looked up through the proved __eq__) + bounded run-time contract check",
       "condense_ballots is proved for all profiles: per (ranking, scores) content the written ballots carry exactly the input weight, written ballots are pairwise distinct in content, candidates kept; Ballot.__eq__ is characterised exactly; "
@@ -58,7 +61,7 @@ def fill(P):
     P("C08", "exploration", "bounded relational execution (renaming / reordering / splitting / candidate order / PYTHONHASHSEED subprocesses)",
       "Relational check over representation variants and hash seeds on small-scope exhaustive profiles.", "", "DESIGN.md 4-C08")
     P("C09", "other", "contract-based deductive verification of the round getters (get_elected/get_eliminated/get_remaining/get_ranking/get_profile) and per-rule frame obligations + bounded query-history check on finished elections of every rule",
-      "Getter results equal the concatenation specs over the recorded rounds, IndexError iff out of range, no store to self; every rule's _run_step stores nothing unless store_states (effect scan; PluralityVeto refuted = known finding); 12-query histories bounded.",
+      "Getter results equal the concatenation specs over the recorded rounds, IndexError iff out of range, no store to self; every rule's _run_step stores nothing unless store_states (effect scan; PluralityVeto refuted = known finding) and, for the rules with a full _run_step contract, modifies no field but election_states (frame obligations on every exit path); 12-query histories bounded.",
       "Election._run_step as a function of (profile, state) is assumed for the replay getter; get_status_df (pandas) bounded only.", "DESIGN.md 4-C09")
     P("C10", "other", "contract-based deductive verification of the tie-straddle kernel (elect_cands_from_set_ranking records a tiebreak iff a set straddles the last seat), tiebreak_set (strict order of exactly the tied set, random fallback whenever the tally leaves any tie) and the single-shot / STV rounds + bounded multi-seed audit of recorded tiebreaks",
       "Kernel, tiebreak_set and the rounds of Plurality/Borda/rating/STV/RandomDictator are proved against their callees' contracts; whole elections are audited under 4 seeds (bounded).", "score_dict_to_ranking / tiebroken_ranking (sorted, dict of lists, slice stores) are assumed callee contracts; bounded only.", "DESIGN.md 4-C10, 8.2")
@@ -77,4 +80,8 @@ def fill(P):
       "the returned profile is the input without the winner; tiebreak_set returns a strict order of exactly the tied set. The resulting probabilities (weight/total, 1/k!) follow from the primitives' documented laws (A-LIB); BoostedRandomDictator (numpy) and the closed forms are bounded only.",
       "primitives' laws assumed (A-LIB); tiebroken_ranking / score_dict_to_ranking assumed callee contracts.", "DESIGN.md 4-C17, 8.2")
     P("C18", "exploration", "bounded check of the loaders on generated files (no contract within reach: the property is about pandas/csv behaviour)", B, "", "DESIGN.md 4-C18")
-    P("C19", "exploration", "bounded comparison of lp_dist with the p-norm definition and the metric axioms on sampled triples; ballot graph vs definition for n<=5", B, "Lean lemma L19 not yet wired in.", "DESIGN.md 4-C19")
+    P("C19", "other",
+      "contract-based deductive verification of lp_dist (integer p: loop invariant over the p-th-power sum; 'inf': maximum as attained upper bound) and BallotGraph.fix_short_ballot + Lean 4/Mathlib lemma L19 (the p-norm of a difference is symmetric, zero iff equal, triangle inequality) + bounded comparison with the definition / ballot graph vs definition for n<=5",
+      "lp_dist is proved to return (sum |a_i-b_i|^p)^(1/p) resp. max |a_i-b_i| over the two columns of profiles_to_ndarrys([pp1, pp2]) for all profiles (floats read as reals, ** uninterpreted), ValueError exactly for an unsupported string / empty array; L19 proves the metric axioms of that formula for integer p >= 1; "
+      "fix_short_ballot is proved for every set enumeration order. profiles_to_ndarrys (numpy, dict union, sorted over tuples of frozensets), build_graph and from_profile (networkx) are outside the subset: assumed contract / bounded only; the metric axioms for 'inf' are bounded only.",
+      "profiles_to_ndarrys is an assumed contract (opaque nd_cols; rectangular, one column per profile); A-FLOAT.", "DESIGN.md 4-C19, 8.3")
